@@ -27,7 +27,7 @@ struct Entry {
   const char* name;
   void (*fn)(std::vector<Item>&, bool, bool);
   int levels;        // C08: 0 none, 1 = bulk-synchronous rounds, 2 = priority levels with barrier
-  int need_monotone; // 0 no, 1 children strictly later, 2 same + descending, 3 = 1 + no conflict aborts
+  int need_monotone; // 0 no, 1 children strictly later, 2 same + descending, 3 = 1 + no conflict aborts, 4/2 = equal or later (2: descending)
 };
 // each group TU exports its table
 extern const Entry GROUP_A[];
